@@ -84,12 +84,9 @@ void clear_cb(void *obj, void *priv)
 typedef std::vector<long> Obs;
 const char *pfx16(const char *c08, const char *c16) { return g_prop == "C16" ? c16 : c08; }
 
-void check_live(Map &mp)
-{
-    // everything the map allocated: exactly one node per entry
-    CHECK(lib_live_count() == mp.model.size() + 0, pfx16("C08.alloc.count", "C16.map.alloc"),
-          "%s the map holds %zu library allocations for %zu entries", mp.tag, lib_live_count(), mp.model.size());
-}
+const char *cl_once() { return g_prop == "C15" ? "C15.map.once" : "C08.clear.once"; }
+// (how many allocations the map keeps per entry is its own business: what is promised is that clear releases
+// everything, which is checked after every clear and at the end of every case)
 
 void audit(Map &mp, int K, Obs *obs)
 {
@@ -178,8 +175,10 @@ void apply(Map &mp, CaseCtx &cx, int op, uint8_t a, uint8_t b, int K, size_t max
                       "%s insert of an existing key does not yield the stored key/value pointers", mp.tag);
             mp.freecell(k, sizeof *k);
             mp.freecell(val, sizeof *val);
-        } else if (failed) {
+        } else if (rc != 0 && (failed || rc == -1)) {
+            // (an insert that returns 0 although one of its requests was refused found another way: judged as a success)
             CNT("class.insert.alloc_failed");
+            CHECK(failed, "C08.insert.new", "%s insert of a new key returned -1 although no allocation was refused", mp.tag);
             CHECK(rc == -1, "C16.map.insert_fail", "%s insert whose node allocation failed returned %d, expected -1", mp.tag, rc);
             if (op == INSERT)
                 CHECK(cstl_map_iterator_eq(&it, end), "C16.map.insert_fail", "%s failed insert yields a non-end iterator", mp.tag);
@@ -240,6 +239,43 @@ void apply(Map &mp, CaseCtx &cx, int op, uint8_t a, uint8_t b, int K, size_t max
         break;
     }
     case ERASE_IT: {
+        if ((a + b) % 3 == 0 && (mp.model.count(cls) || mp.model.size() < maxlive)) {
+            // through the iterator that insert yields: to the existing entry, or to the entry just created
+            bool exists = mp.model.count(cls) != 0;
+            KeyCell *k = mp.mkkey(v);
+            ValCell *val = mp.mkval();
+            cstl_map_iterator_t it;
+            memset(&it, 0x77, sizeof it);
+            int rc;
+            LIB(rc = cstl_map_insert(&mp.m, k, val, &it));
+            bool failed = alloc_failures() != f0;
+            TRACE("%s insert key=%d -> %d%s, then erase through the iterator it yielded", mp.tag, v, rc, failed ? " [allocation failed]" : "");
+            if (obs) obs->push_back(rc);
+            CNT("class.erase_it.via_insert");
+            if (rc == -1) {
+                CHECK(failed && !exists, "C08.insert.new", "%s insert returned -1 although %s", mp.tag, exists ? "the key exists" : "no allocation failed");
+                mp.freecell(k, sizeof *k);
+                mp.freecell(val, sizeof *val);
+                break;
+            }
+            CHECK(rc == (exists ? 1 : 0), exists ? "C08.insert.existing" : "C08.insert.new", "%s insert returned %d for %s key", mp.tag, rc, exists ? "an existing" : "a new");
+            CHECK(!cstl_map_iterator_eq(&it, end), exists ? "C08.insert.existing" : "C08.insert.new", "%s insert yields the end iterator", mp.tag);
+            if (exists) {
+                CHECK(it.key == mp.model[cls].k && it.val == mp.model[cls].v, "C08.insert.existing", "%s insert of an existing key does not yield the stored pointers", mp.tag);
+                mp.freecell(k, sizeof *k);
+                mp.freecell(val, sizeof *val);
+            } else {
+                CHECK(it.key == k && it.val == val, "C08.insert.new", "%s insert of a new key does not yield the given pointers", mp.tag);
+                mp.model[cls] = Entry{k, val};
+            }
+            LIB(cstl_map_erase_iterator(&mp.m, &it));
+            Entry e = mp.model[cls];
+            mp.model.erase(cls);
+            mp.freecell(e.k, sizeof(KeyCell));
+            mp.freecell(e.v, sizeof(ValCell));
+            cx.erase_then_find = true;
+            break;
+        }
         KeyCell probe{v, -1};
         cstl_map_iterator_t it;
         LIB(cstl_map_find(&mp.m, &probe, &it));
@@ -266,8 +302,8 @@ void apply(Map &mp, CaseCtx &cx, int op, uint8_t a, uint8_t b, int K, size_t max
         g_clear_ctx = nullptr;
         TRACE("%s %s (n=%zu) callbacks=%zu", mp.tag, OPN[op], n, cc.calls);
         if (op == CLEAR_CB) {
-            CHECK(!cc.bad, "C15.map.once", "%s clear callback received an entry twice, unknown pointers, or a wrong priv", mp.tag);
-            CHECK(cc.calls == n && expect.empty(), "C15.map.once", "%s clear made %zu callbacks for %zu entries", mp.tag, cc.calls, n);
+            CHECK(!cc.bad, cl_once(), "%s clear callback received an entry twice, unknown pointers, or a wrong priv", mp.tag);
+            CHECK(cc.calls == n && expect.empty(), cl_once(), "%s clear made %zu callbacks for %zu entries", mp.tag, cc.calls, n);
         } else {
             for (auto &kv : mp.model) { mp.freecell(kv.second.k, sizeof(KeyCell)); mp.freecell(kv.second.v, sizeof(ValCell)); }
         }
@@ -322,14 +358,13 @@ void vf_run(const uint8_t *data, size_t len)
         nops++;
         Obs oa, ob;
         uint64_t fh = g_faults_hit;
-        if (c16 && g_faults_hit && g_also_ours.empty()) g_also_ours = {"C08"};
+        if (c16) g_ours_after_fault = {"C08"};     // also for the op that receives the first failure
         bool do_audit = g_want_state ? my >= last_idx : total > 5000 ? (my % 4096) == 4095 : (total <= 24 || (my % 8) == 7);
         bool first_clear = c15 && op == CLEAR_CB && !twin;
         if (!twin && !first_clear) {
             apply(M, cx, op, a, b, K, maxlive, nullptr);
             if (cx.fault_seen) cx.ops_after_fault++;
             if (g_faults_hit != fh) cx.fault_seen = true;
-            check_live(M);
             if (do_audit) audit(M, K, nullptr);
             continue;
         }
@@ -355,7 +390,7 @@ void vf_run(const uint8_t *data, size_t len)
     if (g_want_state && !marked) g_state = peek_state(M);
     apply(M, cx, CLEAR_CB, 0, 0, K, maxlive, nullptr);
     if (twin) apply(MW, cx, CLEAR_CB, 0, 0, K, maxlive, nullptr);
-    CHECK(M.cells.empty(), "C15.map.once", "%zu key/value cells never reached the clear callback", M.cells.size());
+    CHECK(M.cells.empty(), cl_once(), "%zu key/value cells never reached the clear callback", M.cells.size());
     CHECK(lib_live_count() == 0, pfx16("C08.clear.released", "C16.map.leak"), "clear left %zu library allocations", lib_live_count());
     if (c15) g_nontrivial = cx.clear3 && cx.reuse;
     else if (c16) g_nontrivial = g_faults_hit >= 1 && cx.ops_after_fault >= 3;
